@@ -1,10 +1,18 @@
 /-
   C12 — Boolean flags: bare means True, negative means False, values parse, last wins.
-  Theorems about `SpVerif.Model.BoolFlag` (mirrors custom_actions.py / utils.str2bool).
+  Theorems about `SpVerif.Model.BoolFlag` (mirrors custom_actions.py / utils.str2bool) and about
+  `SpVerif.Model.BoolFlagE2E` (option strings → negative option strings → which occurrence a token
+  is → the occurrence algebra).  String lemmas live in `SpVerif.Lemmas.BoolFlag`.
+
+  Sections: the occurrence algebra · the negative option STRINGS (shape, counterparts, injectivity /
+  no collision, the explicit option and its two open findings) · classification and the end-to-end
+  path · vocabulary (exact words, case-insensitivity).
 -/
 import SpVerif.Model.BoolFlag
+import SpVerif.Model.BoolFlagE2E
+import SpVerif.Lemmas.BoolFlag
 namespace SpVerif.C12
-open SpVerif
+open SpVerif SpVerif.BoolFlagL
 
 /-! ### the occurrence algebra: last occurrence wins, any error rejects -/
 
@@ -31,7 +39,8 @@ theorem c12_last_wins (e : Nat) (d : Option Bool) (occs : List Occ) (o : Occ) (b
   unfold flagResult
   rw [runOccs_ok_append e occs o b none hall ho]
 
-/-- the three acceptable forms and their values -/
+/-- the three acceptable forms and their values (which command-line token IS a bare / negative /
+    valued occurrence is decided by `BoolE2E.classify`, see `c12_classify_neg`, `c12_e2e_last_wins`) -/
 theorem c12_bare (e : Nat) : Accepts e .bare true := rfl
 theorem c12_negative (e : Nat) : Accepts e .neg false := rfl
 theorem c12_valued (e : Nat) (w : Str) (b : Bool) (h : str2bool w = some b) :
@@ -111,6 +120,702 @@ theorem c12_exit_is_2 (d : Option Bool) (occs : List Occ) (c : Nat)
     | some b => simp at h
     | none => cases d <;> simp at h; exact h.symm
 
+/-! ### the negative option STRINGS (custom_actions.py:61-126)
+
+  Second sentence of the property: unless a single explicit negative option is declared, each long
+  spelling of the positive option has a negative counterpart with the same path prefix, so the negative
+  options of same-named fields registered at different destinations never collide. -/
+
+theorem contains_dot_iff (o : Str) : o.contains '.' = true ↔ '.' ∈ o := by simp
+
+/-- **Shape, dotted spelling** (`rpartition` form): the negative prefix is inserted after the LAST
+    dot, the path before it is kept, the leading dashes become those of the negative prefix. -/
+theorem c12_neg_shape (np P leaf : Str) (hl : '.' ∉ leaf) :
+    negOne np (P ++ '.' :: leaf) =
+      some (List.replicate (leadingDashes np) '-' ++ lstripDash P ++ '.' :: (lstripDash np ++ leaf)) := by
+  have hc : (P ++ '.' :: leaf).contains '.' = true := by simp
+  unfold negOne
+  rw [if_pos hc, splitOnChar_append_sep, splitOnChar_of_not_mem _ _ hl]
+  cases hs : splitOnChar '.' P with
+  | nil => exact absurd hs (splitOnChar_ne_nil _ _)
+  | cons f mid =>
+    have hP : joinWith '.' (f :: mid) = P := by rw [← hs]; exact joinWith_splitOnChar '.' P
+    have hne : mid ++ [leaf] ≠ [] := by simp
+    simp only [List.cons_append]
+    cases hr : mid ++ [leaf] with
+    | nil => exact absurd hr hne
+    | cons r rs =>
+      simp only [List.nil_append]
+      rw [← hr, List.dropLast_concat, List.getLast?_concat, Option.getD_some,
+        joinWith_append_singleton, joinWith_head_append, lstripDash_joinWith, hP]
+
+/-- **Shape, undotted spelling**: the negative prefix replaces the leading dashes. -/
+theorem c12_neg_shape_flat (np o : Str) (hd : '.' ∉ o) (hh : o.head? = some '-') :
+    negOne np o = some (np ++ lstripDash o) := by
+  unfold negOne
+  have : ¬ (o.contains '.' = true) := by simpa using hd
+  rw [if_neg this, if_pos hh]
+
+/-- the review's form: `--path.leaf ↦ --path.noleaf` for every path (any number of dots) -/
+theorem c12_neg_shape_long (path leaf : Str) (hp : path.head? ≠ some '-') (hl : '.' ∉ leaf) :
+    negOne "--no".toList ("--".toList ++ path ++ '.' :: leaf) =
+      some ("--".toList ++ path ++ ".no".toList ++ leaf) := by
+  rw [c12_neg_shape _ _ _ hl]
+  have e1 : lstripDash ("--".toList ++ path) = path := by
+    show lstripDash ('-' :: '-' :: path) = path
+    simp [lstripDash_of_head path hp]
+  rw [e1]
+  have : leadingDashes "--no".toList = 2 := by decide
+  have : lstripDash "--no".toList = "no".toList := by decide
+  simp_all
+
+example : negOne "--no".toList "--train.a.debug".toList = some "--train.a.nodebug".toList :=
+  c12_neg_shape_long "train.a".toList "debug".toList (by decide) (by decide)
+
+/-- **When set-up raises**: exactly for a spelling without a dot that does not start with a dash
+    (`NotImplementedError`, positional). -/
+theorem c12_neg_fails_iff (np o : Str) :
+    negOne np o = none ↔ ('.' ∉ o ∧ o.head? ≠ some '-') := by
+  by_cases hd : '.' ∈ o
+  · obtain ⟨P, leaf, he, hl⟩ := exists_rpartition o hd
+    subst he
+    rw [c12_neg_shape _ _ _ hl]
+    simp
+  · by_cases hh : o.head? = some '-'
+    · rw [c12_neg_shape_flat np o hd hh]; simp [hh]
+    · have : ¬ (o.contains '.' = true) := by simpa using hd
+      unfold negOne
+      rw [if_neg this, if_neg hh]
+      simp [hd, hh]
+
+theorem negLoop_spec (np : Str) (opts acc l : List Str) (h : negLoop np acc opts = some l) :
+    (∀ a ∈ acc, a ∈ l) ∧ (∀ o ∈ opts, ∃ n ∈ l, negOne np o = some n) ∧
+      (∀ n ∈ l, n ∈ acc ∨ ∃ o ∈ opts, negOne np o = some n) := by
+  induction opts generalizing acc with
+  | nil =>
+    simp only [negLoop, Option.some.injEq] at h
+    subst h
+    simp
+  | cons o os ih =>
+    simp only [negLoop] at h
+    cases hn : negOne np o with
+    | none => rw [hn] at h; cases h
+    | some n =>
+      rw [hn] at h
+      simp only at h
+      -- both "append" branches and the "already present" branch
+      have key : ∀ acc', (∀ a ∈ acc, a ∈ acc') → n ∈ acc' → (∀ x ∈ acc', x ∈ acc ∨ x = n) →
+          negLoop np acc' os = some l →
+          (∀ a ∈ acc, a ∈ l) ∧ (∀ o' ∈ o :: os, ∃ m ∈ l, negOne np o' = some m) ∧
+            (∀ m ∈ l, m ∈ acc ∨ ∃ o' ∈ o :: os, negOne np o' = some m) := by
+        intro acc' hsub hmem hsup h'
+        obtain ⟨h1, h2, h3⟩ := ih acc' h'
+        refine ⟨fun a ha => h1 a (hsub a ha), ?_, ?_⟩
+        · intro o' ho'
+          rcases List.mem_cons.mp ho' with e | e
+          · subst e; exact ⟨n, h1 n hmem, hn⟩
+          · exact h2 o' e
+        · intro m hm
+          rcases h3 m hm with e | ⟨o', ho', e⟩
+          · rcases hsup m e with e | e
+            · exact Or.inl e
+            · subst e; exact Or.inr ⟨o, by simp, hn⟩
+          · exact Or.inr ⟨o', by simp [ho'], e⟩
+      split at h
+      · exact key (acc ++ [n]) (by simp +contextual) (by simp) (by simp) h
+      · split at h
+        · rename_i hin
+          exact key acc (fun a ha => ha) hin (fun x hx => Or.inl hx) h
+        · exact key (acc ++ [n]) (by simp +contextual) (by simp) (by simp) h
+
+/-- **Counterparts, both directions**: the generated negative options are exactly the images of the
+    positive spellings — every spelling has its counterpart and nothing else is generated. -/
+theorem c12_neg_counterpart_iff (np : Str) (opts l : List Str) (h : negLoop np [] opts = some l) (n : Str) :
+    n ∈ l ↔ ∃ o ∈ opts, negOne np o = some n := by
+  obtain ⟨_, h2, h3⟩ := negLoop_spec np opts [] l h
+  constructor
+  · intro hn
+    rcases h3 n hn with e | e
+    · cases e
+    · exact e
+  · rintro ⟨o, ho, e⟩
+    obtain ⟨m, hm, e'⟩ := h2 o ho
+    rw [e] at e'; cases e'; exact hm
+
+theorem negLoop_total (np : Str) (opts acc : List Str) (h : ∀ o ∈ opts, negOne np o ≠ none) :
+    ∃ l, negLoop np acc opts = some l := by
+  induction opts generalizing acc with
+  | nil => exact ⟨acc, rfl⟩
+  | cons o os ih =>
+    have ih' := fun a => ih a (fun x hx => h x (by simp [hx]))
+    simp only [negLoop]
+    cases hn : negOne np o with
+    | none => exact absurd hn (h o (by simp))
+    | some n =>
+      simp only
+      split
+      · exact ih' _
+      · split
+        · exact ih' _
+        · exact ih' _
+
+/-- **Every spelling that starts with a dash gets a negative counterpart** (the option strings of a
+    non-positional field all start with a dash, see `c12_e2e_counterpart`): set-up does not raise and
+    each positive spelling `o` has `negOne np o` among the negative option strings. -/
+theorem c12_neg_counterpart (np : Str) (opts : List Str) (h : ∀ o ∈ opts, o.head? = some '-') :
+    ∃ l, negLoop np [] opts = some l ∧ ∀ o ∈ opts, ∃ n ∈ l, negOne np o = some n := by
+  have hne : ∀ o ∈ opts, negOne np o ≠ none := by
+    intro o ho hnone
+    exact ((c12_neg_fails_iff np o).mp hnone).2 (h o ho)
+  obtain ⟨l, hl⟩ := negLoop_total np opts [] hne
+  exact ⟨l, hl, (negLoop_spec np opts [] l hl).2.1⟩
+
+/-- set-up raises iff some spelling is positional-looking -/
+theorem c12_neg_loop_fails_iff (np : Str) (opts : List Str) :
+    negLoop np [] opts = none ↔ ∃ o ∈ opts, '.' ∉ o ∧ o.head? ≠ some '-' := by
+  constructor
+  · intro h
+    apply Classical.byContradiction
+    intro hno
+    have hne : ∀ o ∈ opts, negOne np o ≠ none := by
+      intro o ho hnone
+      exact hno ⟨o, ho, (c12_neg_fails_iff np o).mp hnone⟩
+    obtain ⟨l, hl⟩ := negLoop_total np opts [] hne
+    rw [h] at hl; cases hl
+  · rintro ⟨o, ho, hbad⟩
+    cases hl : negLoop np [] opts with
+    | none => rfl
+    | some l =>
+      obtain ⟨n, _, hn⟩ := (negLoop_spec np opts [] l hl).2.1 o ho
+      rw [(c12_neg_fails_iff np o).mpr hbad] at hn; cases hn
+
+example : ∀ o ∈ ["-v".toList, "--v".toList, "--a.b.v".toList, "--a.b.my-flag".toList], o.head? = some '-' := by decide
+
+/-! #### no collisions -/
+
+/-- the value of `negOne` on a dotted spelling determines the spelling up to its leading dashes -/
+theorem neg_dotted_inj (np P leaf P' leaf' : Str) (hl : '.' ∉ leaf) (hl' : '.' ∉ leaf')
+    (h : negOne np (P ++ '.' :: leaf) = negOne np (P' ++ '.' :: leaf')) :
+    lstripDash P = lstripDash P' ∧ leaf = leaf' := by
+  rw [c12_neg_shape _ _ _ hl, c12_neg_shape _ _ _ hl'] at h
+  have h := Option.some.inj h
+  rw [List.append_assoc, List.append_assoc] at h
+  have h := List.append_cancel_left h
+  -- compare what follows the last dot
+  have hseg := congrArg lastSeg h
+  rw [lastSeg_dot _ _ _ hl, lastSeg_dot _ _ _ hl'] at hseg
+  have hleaf : leaf = leaf' := List.append_cancel_left hseg
+  subst hleaf
+  exact ⟨List.append_cancel_right h, rfl⟩
+
+/-- **Injectivity**: two positive spellings with the same number of leading dashes and the same
+    negative counterpart are the same spelling — for every negative prefix (even one that contains
+    dots), every path depth. -/
+theorem c12_neg_injective (np o o' n : Str) (hd : leadingDashes o = leadingDashes o')
+    (h : negOne np o = some n) (h' : negOne np o' = some n) : o = o' := by
+  have hnp := dashes_append_lstripDash np
+  by_cases hdot : '.' ∈ o
+  · obtain ⟨P, leaf, he, hl⟩ := exists_rpartition o hdot
+    subst he
+    by_cases hdot' : '.' ∈ o'
+    · obtain ⟨P', leaf', he', hl'⟩ := exists_rpartition o' hdot'
+      subst he'
+      obtain ⟨hP, hleaf⟩ := neg_dotted_inj np P leaf P' leaf' hl hl' (by rw [h, h'])
+      apply eq_of_dashes_of_body _ _ hd
+      rw [lstripDash_append_ne _ _ _ (by decide), lstripDash_append_ne _ _ _ (by decide), hP, hleaf]
+    · -- dotted against undotted: count the dots
+      exfalso
+      have hh' : o'.head? = some '-' := by
+        apply Classical.byContradiction
+        intro hx
+        rw [(c12_neg_fails_iff np o').mpr ⟨hdot', hx⟩] at h'; cases h'
+      rw [c12_neg_shape _ _ _ hl] at h
+      rw [c12_neg_shape_flat np o' hdot' hh'] at h'
+      have e := (Option.some.inj h).trans (Option.some.inj h').symm
+      have e2 : np ++ lstripDash o' = List.replicate (leadingDashes np) '-' ++ (lstripDash np ++ lstripDash o') := by
+        rw [← List.append_assoc, hnp]
+      rw [e2, List.append_assoc] at e
+      have e := congrArg (List.count '.') (List.append_cancel_left e)
+      have c0 : (lstripDash o').count '.' = 0 := by
+        apply count_dot_of_not_mem
+        intro hm
+        have := dashes_append_lstripDash o'
+        exact hdot' (by rw [← this]; simp [hm])
+      simp only [List.count_append, List.count_cons_self, c0] at e
+      omega
+  · have hh : o.head? = some '-' := by
+      apply Classical.byContradiction
+      intro hx
+      rw [(c12_neg_fails_iff np o).mpr ⟨hdot, hx⟩] at h; cases h
+    rw [c12_neg_shape_flat np o hdot hh] at h
+    by_cases hdot' : '.' ∈ o'
+    · exfalso
+      obtain ⟨P', leaf', he', hl'⟩ := exists_rpartition o' hdot'
+      subst he'
+      rw [c12_neg_shape _ _ _ hl'] at h'
+      have e := (Option.some.inj h').trans (Option.some.inj h).symm
+      have e2 : np ++ lstripDash o = List.replicate (leadingDashes np) '-' ++ (lstripDash np ++ lstripDash o) := by
+        rw [← List.append_assoc, hnp]
+      rw [e2, List.append_assoc] at e
+      have e := congrArg (List.count '.') (List.append_cancel_left e)
+      have c0 : (lstripDash o).count '.' = 0 := by
+        apply count_dot_of_not_mem
+        intro hm
+        have := dashes_append_lstripDash o
+        exact hdot (by rw [← this]; simp [hm])
+      simp only [List.count_append, List.count_cons_self, c0] at e
+      omega
+    · have hh' : o'.head? = some '-' := by
+        apply Classical.byContradiction
+        intro hx
+        rw [(c12_neg_fails_iff np o').mpr ⟨hdot', hx⟩] at h'; cases h'
+      rw [c12_neg_shape_flat np o' hdot' hh'] at h'
+      have e := (Option.some.inj h).trans (Option.some.inj h').symm
+      exact eq_of_dashes_of_body _ _ hd (List.append_cancel_left e)
+
+/-- the full statement without the dash-count hypothesis is FALSE for the code: `-a` and `--a` share
+    `--noa` (deliberately, custom_actions.py:118-120) -/
+def NegInjectiveAll : Prop :=
+  ∀ np o o' n : Str, negOne np o = some n → negOne np o' = some n → o = o'
+
+theorem c12_neg_injective_witness : ¬ NegInjectiveAll := by
+  intro h
+  have := h "--no".toList "-a".toList "--a".toList "--noa".toList (by decide) (by decide)
+  exact absurd this (by decide)
+
+/-- **Same-named fields registered at different destinations never collide**: the option lists of
+    two actions whose spellings all have the same number `k` of leading dashes (the long spellings,
+    `k = 2`) and are pairwise different have disjoint negative option strings. -/
+theorem c12_neg_no_collision (np : Str) (k : Nat) (opts opts' l l' : List Str)
+    (hk : ∀ o ∈ opts, leadingDashes o = k) (hk' : ∀ o ∈ opts', leadingDashes o = k)
+    (hdis : ∀ o ∈ opts, o ∉ opts')
+    (hl : negLoop np [] opts = some l) (hl' : negLoop np [] opts' = some l') :
+    ∀ n ∈ l, n ∉ l' := by
+  intro n hn hn'
+  obtain ⟨o, ho, e⟩ := (c12_neg_counterpart_iff np opts l hl n).mp hn
+  obtain ⟨o', ho', e'⟩ := (c12_neg_counterpart_iff np opts' l' hl' n).mp hn'
+  have := c12_neg_injective np o o' n ((hk o ho).trans (hk' o' ho').symm) e e'
+  subst this
+  exact hdis o ho ho'
+
+example : negOne "--disable_".toList "--my-flag".toList = some "--disable_my-flag".toList :=
+  c12_neg_shape_flat _ _ (by decide) (by decide)
+-- hypotheses of `c12_neg_injective` / `c12_neg_no_collision` on the long spellings of two destinations
+example : leadingDashes "--train.debug".toList = leadingDashes "--valid.debug".toList := by decide
+example : (∀ o ∈ ["--train.debug".toList, "--train.my-debug".toList], leadingDashes o = 2) ∧
+    (∀ o ∈ ["--train.debug".toList, "--train.my-debug".toList], o ∉ ["--valid.debug".toList]) := by decide
+example : negLoop "--no".toList [] ["--train.debug".toList, "--train.my-debug".toList]
+    = some ["--train.nodebug".toList, "--train.nomy-debug".toList] := by decide
+example : negLoop "--no".toList [] ["--valid.debug".toList] = some ["--valid.nodebug".toList] := by decide
+
+/-! #### the explicit `negative_option` (custom_actions.py:65-94) -/
+
+/-- the conflict prefix handed over by the FieldWrapper is empty or ends in a dot (decidable) -/
+def PrefixDotted (cp : Str) : Prop := cp = [] ∨ cp.getLast? = some '.'
+instance (cp : Str) : Decidable (PrefixDotted cp) := by unfold PrefixDotted; exact inferInstance
+
+/-- FULL statement of "the declared negative option carries the same conflict prefix as the positive
+    one": exactly one negative option string, namely dashes + prefix + the declared word. -/
+def ExplicitCarriesPrefix : Prop :=
+  ∀ no cp : Str, ∃ k, negExplicit no cp = some [List.replicate k '-' ++ cp ++ lstripDash no]
+
+/-- the code does NOT satisfy it: `FieldWrapper.prefix` also contains the USER prefix
+    (`add_arguments(C, dest, prefix="x_")`), which need not end in a dot; `__init__` then dies on a bare
+    `assert` (custom_actions.py:75).  Open finding C12-explicit-neg-user-prefix. -/
+theorem c12_explicit_prefix_witness : ¬ ExplicitCarriesPrefix := by
+  intro h
+  obtain ⟨k, hk⟩ := h "silent".toList "x_".toList
+  have : negExplicit "silent".toList "x_".toList = none := by decide
+  rw [this] at hk; cases hk
+
+/-- ... and it holds under the named exclusion -/
+theorem c12_explicit_prefix_partial (no cp : Str) (h : PrefixDotted cp) :
+    ∃ k, negExplicit no cp = some [List.replicate k '-' ++ cp ++ lstripDash no] ∧
+      (no.head? = some '-' → k = leadingDashes no) ∧
+      (no.head? ≠ some '-' → k = if cp.length + no.length > 1 then 2 else 1) := by
+  have hok : (!cp.isEmpty && cp.getLast? != some '.') = false := by
+    rcases h with h | h
+    · subst h; rfl
+    · simp [h]
+  unfold negExplicit
+  rw [hok]
+  by_cases hd : no.head? = some '-'
+  · refine ⟨leadingDashes no, ?_, fun _ => rfl, fun hx => absurd hd hx⟩
+    simp [hd]
+  · rw [lstripDash_of_head no hd]
+    by_cases hlen : cp.length + no.length > 1
+    · refine ⟨2, ?_, fun hx => absurd hx hd, fun _ => by rw [if_pos hlen]⟩
+      have : 1 < cp.length + no.length := hlen
+      simp [hd, this]
+    · refine ⟨1, ?_, fun hx => absurd hx hd, fun _ => by rw [if_neg hlen]⟩
+      have : ¬ 1 < cp.length + no.length := hlen
+      simp [hd, this]
+
+/-- set-up raises exactly outside the exclusion -/
+theorem c12_explicit_raises_iff (no cp : Str) : negExplicit no cp = none ↔ ¬ PrefixDotted cp := by
+  constructor
+  · intro h hp
+    obtain ⟨k, hk, _⟩ := c12_explicit_prefix_partial no cp hp
+    rw [h] at hk; cases hk
+  · intro h
+    unfold PrefixDotted at h
+    have h1 : cp ≠ [] := fun e => h (Or.inl e)
+    have h2 : cp.getLast? ≠ some '.' := fun e => h (Or.inr e)
+    have : (!cp.isEmpty && cp.getLast? != some '.') = true := by
+      cases cp with
+      | nil => exact absurd rfl h1
+      | cons c cs => simpa using h2
+    simp [negExplicit, this]
+
+/-- **the declared negative options of the same field at different conflict prefixes never collide** -/
+theorem c12_explicit_injective (no cp cp' : Str) (l : List Str)
+    (h : negExplicit no cp = some l) (h' : negExplicit no cp' = some l) : cp = cp' := by
+  have hp : PrefixDotted cp := by
+    apply Classical.byContradiction; intro hx
+    rw [(c12_explicit_raises_iff no cp).mpr hx] at h; cases h
+  have hp' : PrefixDotted cp' := by
+    apply Classical.byContradiction; intro hx
+    rw [(c12_explicit_raises_iff no cp').mpr hx] at h'; cases h'
+  obtain ⟨k, hk, hk1, hk2⟩ := c12_explicit_prefix_partial no cp hp
+  obtain ⟨k', hk', hk1', hk2'⟩ := c12_explicit_prefix_partial no cp' hp'
+  rw [h] at hk; rw [h'] at hk'
+  have e : List.replicate k '-' ++ cp ++ lstripDash no = List.replicate k' '-' ++ cp' ++ lstripDash no := by
+    have := (Option.some.inj hk).symm.trans (Option.some.inj hk')
+    exact List.head_eq_of_cons_eq this
+  have e := List.append_cancel_right e
+  by_cases hd : no.head? = some '-'
+  · rw [hk1 hd, hk1' hd] at e
+    exact List.append_cancel_left e
+  · -- undashed word: one dash only for an unprefixed single character
+    have hlen := congrArg List.length e
+    simp only [List.length_append, List.length_replicate] at hlen
+    have a1 := hk2 hd
+    have a2 := hk2' hd
+    have hkk : k = k' := by
+      split at a1 <;> split at a2 <;> omega
+    subst hkk
+    exact List.append_cancel_left e
+
+example : PrefixDotted "train.".toList := by decide
+example : negExplicit "silent".toList "train.".toList = some ["--train.silent".toList] := by decide
+example : negExplicit "-s".toList "a.b.".toList = some ["-a.b.s".toList] := by decide
+example : negExplicit "q".toList [] = some ["-q".toList] := by decide
+
+/-! ### which occurrence a command-line token is, and the whole path of one bool field
+
+  `BoolE2E.classify` mirrors `used_negative_flag = option_string in self.negative_option_strings`
+  (custom_actions.py:156); `BoolE2E.run` composes option_strings (Model/Naming) → negative option
+  strings → classification → the occurrence algebra, and is compared with the real parser end to end
+  (op `bool.e2e`: real option strings, real negative option strings, real outcome). -/
+
+open SpVerif.BoolE2E in
+/-- **a negative option string IS a negative occurrence** (item: `n ∈ negStrings … → classify … n = .neg`) -/
+theorem c12_classify_neg (pos : List Str) (np : Str) (no : Option Str) (cp : Str) (negs : List Str)
+    (_h : negStrings pos np no cp = some negs) (n : Str) (hn : n ∈ negs) :
+    classify pos negs ⟨n, none⟩ = some .neg ∧
+      ∀ w, classify pos negs ⟨n, some w⟩ = some (.negValued w) := by
+  simp [classify, hn]
+
+open SpVerif.BoolE2E in
+/-- a positive spelling that is not also a negative one is a bare / valued occurrence -/
+theorem c12_classify_pos (pos negs : List Str) (p : Str) (hp : p ∈ pos) (hn : p ∉ negs) :
+    classify pos negs ⟨p, none⟩ = some .bare ∧
+      ∀ w, classify pos negs ⟨p, some w⟩ = some (.valued w) := by
+  simp [classify, hp, hn]
+
+open SpVerif.BoolE2E in
+/-- the negative test comes first: a string that is both (alias `nox` next to `x`) is read as negative -/
+theorem c12_classify_neg_first (pos negs : List Str) (p : Str) (hn : p ∈ negs) :
+    classify pos negs ⟨p, none⟩ = some .neg := by
+  simp [classify, hn]
+
+open SpVerif.BoolE2E in
+example : classify ["--x".toList, "--nox".toList] ["--nox".toList, "--nonox".toList] ⟨"--nox".toList, none⟩
+    = some .neg := by decide
+open SpVerif.BoolE2E in
+example : classify ["-v".toList, "--v".toList] ["--nov".toList] ⟨"-v".toList, some "No".toList⟩
+    = some (.valued "No".toList) := by decide
+
+/-! option strings of a non-positional field start with a dash (Model/Naming) -/
+
+theorem dashFor_head (x : Str) : (dashFor x).head? = some '-' := by
+  unfold dashFor; split <;> rfl
+
+theorem aliasPair_head (pref a : Str) : (aliasPair pref a).1.head? = some '-' := by
+  unfold aliasPair
+  split
+  · rfl
+  · rfl
+  · exact dashFor_head _
+
+theorem basePairs_head (cfg : Cfg) (fw : FW) (p : Str × Str) (h : p ∈ basePairs cfg fw) :
+    p.1.head? = some '-' := by
+  unfold basePairs at h
+  simp only [List.mem_append, List.mem_map] at h
+  rcases h with (⟨c, _, rfl⟩ | h) | ⟨a, _, rfl⟩
+  · exact dashFor_head _
+  · split at h
+    · simp only [List.mem_map] at h
+      obtain ⟨c, _, rfl⟩ := h
+      rfl
+    · cases h
+  · exact aliasPair_head _ _
+
+theorem optionList_head (cfg : Cfg) (fw : FW) (hpos : fw.positional = false) (o : Str)
+    (h : o ∈ optionList cfg fw) : o.head? = some '-' := by
+  unfold optionList at h
+  simp only [hpos, Bool.false_eq_true, ↓reduceIte, List.mem_map, List.mem_append] at h
+  obtain ⟨p, hp, rfl⟩ := h
+  have hp1 : p.1.head? = some '-' := by
+    rcases hp with hp | hp
+    · exact basePairs_head cfg fw p hp
+    · unfold extraPairs at hp
+      split at hp
+      · simp only [List.mem_map] at hp
+        obtain ⟨q, _, rfl⟩ := hp
+        exact dashFor_head _
+      · cases hp
+  cases h1 : p.1 with
+  | nil => rw [h1] at hp1; cases hp1
+  | cons c cs => rw [h1] at hp1; simpa using hp1
+
+theorem mem_of_mem_dedup (l : List Str) (x : Str) (h : x ∈ dedup l) : x ∈ l := by
+  induction l with
+  | nil => cases h
+  | cons y ys ih =>
+    simp only [dedup, List.mem_cons, List.mem_filter] at h ⊢
+    rcases h with h | h
+    · exact Or.inl h
+    · exact Or.inr (ih h.1)
+
+theorem mem_insertByLen (x y : Str) (l : List Str) : y ∈ insertByLen x l ↔ y = x ∨ y ∈ l := by
+  induction l with
+  | nil => simp [insertByLen]
+  | cons z zs ih =>
+    simp only [insertByLen]
+    split
+    · simp
+    · simp only [List.mem_cons, ih]
+      constructor
+      · rintro (h | h | h)
+        · exact Or.inr (Or.inl h)
+        · exact Or.inl h
+        · exact Or.inr (Or.inr h)
+      · rintro (h | h | h)
+        · exact Or.inr (Or.inl h)
+        · exact Or.inl h
+        · exact Or.inr (Or.inr h)
+
+theorem mem_sortByLen (l : List Str) (y : Str) : y ∈ sortByLen l ↔ y ∈ l := by
+  have : ∀ acc : List Str, y ∈ l.foldl (fun acc x => insertByLen x acc) acc ↔ y ∈ acc ∨ y ∈ l := by
+    induction l with
+    | nil => simp
+    | cons x xs ih =>
+      intro acc
+      simp only [List.foldl_cons, ih, mem_insertByLen, List.mem_cons]
+      constructor
+      · rintro ((h | h) | h)
+        · exact Or.inr (Or.inl h)
+        · exact Or.inl h
+        · exact Or.inr (Or.inr h)
+      · rintro (h | h | h)
+        · exact Or.inl (Or.inr h)
+        · exact Or.inl (Or.inl h)
+        · exact Or.inr h
+  simpa [sortByLen] using this []
+
+theorem optionStrings_head (cfg : Cfg) (fw : FW) (hpos : fw.positional = false) (o : Str)
+    (h : o ∈ optionStrings cfg fw) : o.head? = some '-' := by
+  unfold optionStrings at h
+  simp only [hpos, Bool.false_eq_true, ↓reduceIte, mem_sortByLen] at h
+  exact optionList_head cfg fw hpos o (mem_of_mem_dedup _ _ h)
+
+open SpVerif.BoolE2E in
+/-- **End to end, every configuration**: for every dash variant, generation mode, nested mode, name,
+    prefix, destination and alias list of a non-positional bool field and every negative prefix, the
+    parser can be built (no explicit negative option ⇒ set-up never raises) and EVERY spelling of the
+    positive option has its negative counterpart `negOne np p` among the negative option strings. -/
+theorem c12_e2e_counterpart (s : Setup) (hpos : s.fw.positional = false) (hno : s.negOption = none) :
+    ∃ negs, optionsOf s = some (optionStrings s.cfg s.fw, negs) ∧
+      ∀ p ∈ optionStrings s.cfg s.fw, ∃ n ∈ negs, negOne s.negPrefix p = some n := by
+  obtain ⟨l, hl, hc⟩ := c12_neg_counterpart s.negPrefix (optionStrings s.cfg s.fw)
+    (optionStrings_head s.cfg s.fw hpos)
+  refine ⟨l, ?_, hc⟩
+  simp [optionsOf, negStrings, hno, hl]
+
+open SpVerif.BoolE2E in
+theorem mapM_classify_append (pos negs : List Str) (ts : List Tok) (t : Tok) (occs : List Occ) (o : Occ)
+    (h1 : ts.mapM (classify pos negs) = some occs) (h2 : classify pos negs t = some o) :
+    (ts ++ [t]).mapM (classify pos negs) = some (occs ++ [o]) := by
+  induction ts generalizing occs with
+  | nil =>
+    simp only [List.mapM_nil, Option.pure_def, Option.some.injEq] at h1
+    subst h1
+    simp [h2]
+  | cons x xs ih =>
+    simp only [List.mapM_cons, Option.bind_eq_bind, Option.bind_eq_some_iff] at h1
+    obtain ⟨ox, hx, rest, hr, e⟩ := h1
+    simp only [Option.pure_def, Option.some.injEq] at e
+    subst e
+    simp [hx, ih rest hr]
+
+open SpVerif.BoolE2E in
+/-- **End to end, the negative option yields False and the positive one True, last wins**: on a parser
+    that can be built, a command line of acceptable occurrences that ends with a negative option string
+    gives `False`; ending with a positive spelling (that is not also a negative one) gives `True`, ending
+    with `p v` gives the boolean named by `v` — whatever the default and whatever came before. -/
+theorem c12_e2e_last_wins (e : Nat) (s : Setup) (d : Option Bool) (pos negs : List Str)
+    (hs : optionsOf s = some (pos, negs)) (ts : List Tok) (occs : List Occ)
+    (hts : ts.mapM (classify pos negs) = some occs) (hall : ∀ x ∈ occs, ∃ bx, Accepts e x bx) :
+    (∀ n ∈ negs, run e s d (ts ++ [⟨n, none⟩]) = .res (.ok false)) ∧
+    (∀ p ∈ pos, p ∉ negs → run e s d (ts ++ [⟨p, none⟩]) = .res (.ok true)) ∧
+    (∀ p ∈ pos, p ∉ negs → ∀ w b, str2bool w = some b →
+        run e s d (ts ++ [⟨p, some w⟩]) = .res (.ok b)) := by
+  refine ⟨?_, ?_, ?_⟩
+  · intro n hn
+    have hc : classify pos negs ⟨n, none⟩ = some .neg := by simp [classify, hn]
+    simp only [run, hs, mapM_classify_append pos negs ts _ occs _ hts hc]
+    rw [c12_last_wins e d occs .neg false hall (c12_negative e)]
+  · intro p hp hpn
+    have hc := (c12_classify_pos pos negs p hp hpn).1
+    simp only [run, hs, mapM_classify_append pos negs ts _ occs _ hts hc]
+    rw [c12_last_wins e d occs .bare true hall (c12_bare e)]
+  · intro p hp hpn w b hw
+    have hc := (c12_classify_pos pos negs p hp hpn).2 w
+    simp only [run, hs, mapM_classify_append pos negs ts _ occs _ hts hc]
+    rw [c12_last_wins e d occs (.valued w) b hall (c12_valued e w b hw)]
+
+open SpVerif.BoolE2E in
+/-- a value on a negative option string is rejected with status 2, end to end -/
+theorem c12_e2e_neg_value_rejected (s : Setup) (d : Option Bool) (pos negs : List Str)
+    (hs : optionsOf s = some (pos, negs)) (ts : List Tok) (occs : List Occ)
+    (hts : ts.mapM (classify pos negs) = some occs) (n w : Str) (hn : n ∈ negs)
+    (hmem : (⟨n, some w⟩ : Tok) ∈ ts) : run 2 s d ts = .res (.exit 2) := by
+  have hocc : Occ.negValued w ∈ occs := by
+    clear hs
+    induction ts generalizing occs with
+    | nil => cases hmem
+    | cons x xs ih =>
+      simp only [List.mapM_cons, Option.bind_eq_bind, Option.bind_eq_some_iff] at hts
+      obtain ⟨ox, hx, rest, hr, e⟩ := hts
+      simp only [Option.pure_def, Option.some.injEq] at e
+      subst e
+      rcases List.mem_cons.mp hmem with h | h
+      · subst h
+        simp only [classify, hn, ↓reduceIte, Option.some.injEq] at hx
+        subst hx; simp
+      · exact List.mem_cons_of_mem _ (ih rest hr h)
+  simp only [run, hs, hts]
+  rw [c12_neg_value_rejected d occs w hocc]
+
+/-! non-vacuity of the end-to-end theorems: a concrete configuration (DASH variant, BOTH generation
+    mode, conflict prefix `train.`, name with an underscore) -/
+section
+open SpVerif.BoolE2E
+def exSetup : Setup :=
+  { cfg := ⟨.both, .both, .default⟩,
+    fw := { name := "my_flag".toList, pref := "train.".toList, dest := "cfg.train.my_flag".toList, aliases := [] },
+    negPrefix := "--no".toList, negOption := none }
+example : optionsOf exSetup = some (
+    ["--train.my_flag".toList, "--train.my-flag".toList, "--cfg.train.my_flag".toList, "--cfg.train.my-flag".toList],
+    ["--train.nomy_flag".toList, "--train.nomy-flag".toList, "--cfg.train.nomy_flag".toList, "--cfg.train.nomy-flag".toList]) := by
+  decide
+example : exSetup.fw.positional = false ∧ exSetup.negOption = none := ⟨rfl, rfl⟩
+example : run 2 exSetup (some true)
+    [⟨"--train.my-flag".toList, none⟩, ⟨"--cfg.train.my_flag".toList, some "No".toList⟩,
+     ⟨"--cfg.train.nomy-flag".toList, none⟩] = .res (.ok false) := by decide
+example : run 2 { exSetup with negOption := some "silent".toList, fw := { exSetup.fw with pref := "x_".toList } }
+    (some true) [] = .setupRaise := by decide
+end
+
+/-! #### the declared negative option against the prefix the POSITIVE option shows -/
+
+/-- the conflict prefix as the positive flat spelling shows it (field_wrapper.py:598,602-603): the
+    whole `prefix + name` is dashified under `DashVariant.DASH` -/
+def posPrefix (cfg : Cfg) (fw : FW) : Str :=
+  if cfg.dash = .dashOnly then dashify fw.pref else fw.pref
+
+theorem flatCand_prefix (cfg : Cfg) (fw : FW) :
+    ∃ leaf, flatCand cfg fw = posPrefix cfg fw ++ leaf := by
+  unfold flatCand posPrefix
+  by_cases h : cfg.dash = .dashOnly
+  · exact ⟨dashify fw.name, by simp [h, dashify]⟩
+  · exact ⟨fw.name, by simp [h]⟩
+
+theorem dashify_of_no_underscore (s : Str) (h : hasUnderscore s = false) : dashify s = s := by
+  induction s with
+  | nil => rfl
+  | cons c cs ih =>
+    simp only [hasUnderscore, List.contains_cons, Bool.or_eq_false_iff] at h
+    have hc : c ≠ '_' := by
+      intro e; subst e; simp at h
+    have hcs : hasUnderscore cs = false := h.2
+    simp only [dashify, List.map_cons, hc, ↓reduceIte]
+    exact congrArg _ (ih hcs)
+
+open SpVerif.BoolE2E in
+/-- FULL statement, end to end: whenever the parser can be built with a declared negative option, that
+    option is `dashes + (the prefix the positive option shows) + the declared word`. -/
+def ExplicitMatchesPositive : Prop :=
+  ∀ (s : Setup) (no : Str) (pos negs : List Str), s.negOption = some no → optionsOf s = some (pos, negs) →
+    ∃ k, negs = [List.replicate k '-' ++ posPrefix s.cfg s.fw ++ lstripDash no]
+
+open SpVerif.BoolE2E in
+/-- the code does NOT satisfy it under `DashVariant.DASH` when the conflict prefix contains an underscore:
+    positive `--my-a.flag`, negative `--my_a.silent` (field_wrapper.py:387 hands the raw prefix over).
+    Open finding C12-explicit-neg-dash-variant. -/
+theorem c12_explicit_dash_witness : ¬ ExplicitMatchesPositive := by
+  intro h
+  let s : Setup := { cfg := ⟨.dashOnly, .flat, .default⟩,
+                     fw := { name := "flag".toList, pref := "my_a.".toList, dest := "my_a.flag".toList, aliases := [] },
+                     negPrefix := "--no".toList, negOption := some "silent".toList }
+  obtain ⟨k, hk⟩ := h s "silent".toList ["--my-a.flag".toList] ["--my_a.silent".toList] rfl (by decide)
+  have hlen := congrArg (fun l => l.map List.length) hk
+  have h1 : posPrefix s.cfg s.fw = "my-a.".toList := by decide
+  have hk' : "--my_a.silent".toList = List.replicate k '-' ++ "my-a.".toList ++ "silent".toList := by
+    have := List.head_eq_of_cons_eq hk
+    rw [h1] at this
+    exact this
+  have hl := congrArg List.length hk'
+  simp only [List.length_append, List.length_replicate] at hl
+  have : k = 2 := by
+    have a : "--my_a.silent".toList.length = 13 := by decide
+    have b : "my-a.".toList.length = 5 := by decide
+    have c : "silent".toList.length = 6 := by decide
+    omega
+  subst this
+  exact absurd hk' (by decide)
+
+open SpVerif.BoolE2E in
+/-- ... and holds under the named exclusion (not DASH, or no underscore in the prefix) -/
+theorem c12_explicit_dash_partial (s : Setup) (no : Str) (pos negs : List Str)
+    (hx : s.cfg.dash ≠ .dashOnly ∨ hasUnderscore s.fw.pref = false)
+    (hno : s.negOption = some no) (hs : optionsOf s = some (pos, negs)) :
+    ∃ k, negs = [List.replicate k '-' ++ posPrefix s.cfg s.fw ++ lstripDash no] := by
+  have hpp : posPrefix s.cfg s.fw = s.fw.pref := by
+    unfold posPrefix
+    rcases hx with hx | hx
+    · simp [hx]
+    · split
+      · exact dashify_of_no_underscore _ hx
+      · rfl
+  rw [hpp]
+  unfold optionsOf at hs
+  simp only [negStrings, hno] at hs
+  cases he : negExplicit no s.fw.pref with
+  | none => rw [he] at hs; cases hs
+  | some l =>
+    rw [he] at hs
+    simp only [Option.some.injEq, Prod.mk.injEq] at hs
+    have hp : PrefixDotted s.fw.pref := by
+      apply Classical.byContradiction; intro hc
+      rw [(c12_explicit_raises_iff no _).mpr hc] at he; cases he
+    obtain ⟨k, hk, _⟩ := c12_explicit_prefix_partial no s.fw.pref hp
+    rw [he] at hk
+    exact ⟨k, by rw [← hs.2]; exact Option.some.inj hk⟩
+
+example : (⟨.both, .flat, .default⟩ : Cfg).dash ≠ .dashOnly ∨ hasUnderscore "my_a.".toList = false := by decide
+
 /-! ### vocabulary -/
 
 /-- the vocabulary is exactly the ten words, compared after strip + lower-casing -/
@@ -150,10 +855,36 @@ theorem c12_vocab_reject (w : Str) :
   · simp [h1]
   · by_cases h2 : lower (stripWs w) ∈ falseStrings <;> simp [h1, h2]
 
-/-- **Case-insensitive**: two tokens that differ only in letter case name the same boolean. -/
-theorem c12_case_insensitive (w w' : Str) (h : lower (stripWs w) = lower (stripWs w')) :
+/-- **Case-insensitive**: two tokens that differ only in letter case (equal after ASCII lower-casing,
+    character by character) name the same boolean — or are both rejected.  Not definitional: `str2bool`
+    strips first and lower-cases second, so this needs `strip ∘ lower = lower ∘ strip`. -/
+theorem c12_case_insensitive (w w' : Str) (h : w.map lowerChar = w'.map lowerChar) :
     str2bool w = str2bool w' := by
-  unfold str2bool; rw [h]
+  have h' : lower w = lower w' := h
+  unfold str2bool
+  simp only [← stripWs_lower, h']
+
+/-- in particular the case of the letters never matters: `str2bool w = str2bool (lower w)` -/
+theorem c12_lower_invariant (w : Str) : str2bool (lower w) = str2bool w :=
+  c12_case_insensitive _ _ (by show lower (lower w) = lower w; exact lower_idem w)
+
+/-- a token that IS one of the five true-words up to letter case yields `True` (no hypothesis about
+    `stripWs`: none of the words starts or ends with a blank) -/
+theorem c12_true_word_any_case (w : Str) (h : lower w ∈ trueStrings) : str2bool w = some true := by
+  rw [← c12_lower_invariant]
+  simp only [trueStrings, List.mem_cons, List.not_mem_nil, or_false] at h
+  rcases h with h | h | h | h | h <;> rw [h] <;> decide
+
+theorem c12_false_word_any_case (w : Str) (h : lower w ∈ falseStrings) : str2bool w = some false := by
+  rw [← c12_lower_invariant]
+  simp only [falseStrings, List.mem_cons, List.not_mem_nil, or_false] at h
+  rcases h with h | h | h | h | h <;> rw [h] <;> decide
+
+example : str2bool "tRuE".toList = str2bool "TRUE".toList := c12_case_insensitive _ _ (by decide)
+example : str2bool "fAlSe".toList = some false := c12_false_word_any_case _ (by decide)
+-- the separators \x1c-\x1f are blanks for `str.strip()` (isSpace) — these two change if `isSpace` changes
+example : str2bool "\x1ctrue".toList = some true := by decide
+example : str2bool "no\x1f".toList = some false := by decide
 
 /-- concrete vocabulary table (all ten words, upper-cased too): a finite check by `decide`. -/
 theorem c12_vocab_table :
